@@ -73,7 +73,7 @@ mut("hilbert-id-narrowed", ["C07"], ["R-HILBERT-CALL"], [(I, "hilbert_2d::xy2h_d
 def main():
     if os.path.isdir(OUT):
         for f in os.listdir(OUT):
-            if f.endswith(".patch") and not f.startswith("seeded-"):
+            if f.endswith(".patch") and not f.startswith(("seeded-", "shape-")):
                 os.remove(os.path.join(OUT, f))
     os.makedirs(OUT, exist_ok=True)
     idx = {}
@@ -100,7 +100,7 @@ def main():
     old = {}
     ip = os.path.join(OUT, "index.json")
     if os.path.exists(ip):
-        old = {k: v for k, v in json.load(open(ip)).items() if k.startswith("seeded-")}
+        old = {k: v for k, v in json.load(open(ip)).items() if k.startswith(("seeded-", "shape-"))}   # shape-*: a defect inside a stored refactoring (refactor + slip as one patch)
     old.update(idx)
     json.dump(old, open(ip, "w"), indent=1, sort_keys=True)
     open(os.path.join(OUT, "BASE"), "w").write(subprocess.check_output(["git", "-C", REPO, "rev-parse", "HEAD"], text=True).strip() + "\n")
